@@ -85,7 +85,10 @@ Record cb_facts (fid : N) (p p' : proxy) (x x' : mux) : Prop := {
   cbf_removed : p_removed p' = p_removed p;
   cbf_done : p_ok p' = false -> p_ok p = false \/
              (s_sr (p_s p') = true /\ s_sw (p_s p') = true /\ m_sr (p_m p') = true /\ m_sw (p_m p') = true /\
-              s_buf (p_s p') = [] /\ m_buf (p_m p') = [])
+              s_buf (p_s p') = [] /\ m_buf (p_m p') = []);
+  (* STOP_SENDING is emitted exactly when this wrapper's shut_read is newly set by the callback *)
+  cbf_stop_sr : has_stop cb_new -> m_sr (p_m p') = true;
+  cbf_sr_stop : m_sr (p_m p) = false -> m_sr (p_m p') = true -> has_stop cb_new
 }.
 
 (* ---------------- the two copies, in either order ---------------- *)
@@ -440,6 +443,23 @@ Proof.
   (* 18 *) - reflexivity.
   (* 19 *) - intros H. destruct Pend as [(_ & _ & _ & Q)|(Q1 & Q2 & Q3 & Q4 & Q5 & Q6 & Q7)]; [left; congruence|].
             right. splits; auto; try congruence. exact (SrMono _ _ Pm Q1).
+  (* 20 *) - intros (fr & Hin & Hc). rewrite Pmsr.
+            apply in_app_or in Hin. destruct Hin as [Hin|Hin].
+            + exfalso. destruct (m_sw m2) eqn:E2; destruct (m_sw m0) eqn:E0.
+              * pose proof (Cne eq_refl) as Hd. rewrite Forall_forall in Hd. rewrite (Hd fr Hin) in Hc. discriminate.
+              * destruct (Ceof eq_refl eq_refl) as (_ & _ & pre & X3 & X4).
+                rewrite X3 in Hin. apply in_app_or in Hin. destruct Hin as [Hin|[<-|[]]].
+                -- rewrite Forall_forall in X4. rewrite (X4 fr Hin) in Hc. discriminate.
+                -- discriminate.
+              * destruct Cmm as (_ & _ & C1). pose proof (C1 E0). congruence.
+              * pose proof (Cne eq_refl) as Hd. rewrite Forall_forall in Hd. rewrite (Hd fr Hin) in Hc. discriminate.
+            + apply in_app_or in Hin. destruct Hin as [Hin|Hin].
+              * destruct M3case as [(-> & _)|(_ & _ & Q3 & _)]; [destruct Hin|exact Q3].
+              * rewrite (Den3 fr Hin) in Hc. discriminate.
+  (* 21 *) - intros A B. rewrite Pmsr in B. rewrite <- Cmsr in A.
+            destruct M3case as [(_ & Q & _)|(_ & _ & _ & Q4)]; [congruence|].
+            rewrite A in Q4. exists (stop_frame c fid). split; [|reflexivity].
+            apply in_or_app. right. apply in_or_app. left. rewrite Q4. left. reflexivity.
 Qed.
 
 (* ---------------- Proxy.pre_select ---------------- *)
@@ -477,4 +497,4 @@ Qed.
 
 Ltac destr_cb F :=
   destruct F as [cbnew cbr cbd Fext Fcc Frd Frdshut Fwr Fwrshut Fsmono Fmmono Fs2m Fm2s Feof Fnoeof
-                 Fstop Fstopf Fshut Fbound Ftf Fremoved Fdone].
+                 Fstop Fstopf Fshut Fbound Ftf Fremoved Fdone Fstopsr Fsrstop].
